@@ -618,6 +618,35 @@ static void verdict_case(const uint8_t *arc, size_t n, int supported, int must_b
 		if (!e && expected && supported) vf_viol("c07-extract-bad-but-match", "%s: extract reports failure although length and CRC match", what);
 		lha_reader_free(rd); lha_input_stream_free(st);
 		unlink(oname);
+		/* an extraction that follows a test or a partial read of the same member: whatever it reports, success is only
+		 * allowed when the file it wrote has the recorded length and CRC */
+		{
+			int seq;
+			for (seq = 0; seq < 3; ++seq) {
+				FILE *f;
+				size_t flen = 0;
+				uint16_t fcrc = 0;
+				st = mem_open(&ms, arc, n, 1);
+				rd = lha_reader_new(st);
+				h = lha_reader_next_file(rd);
+				if (h) {
+					if (seq == 0) lha_reader_check(rd, NULL, NULL);
+					else lha_reader_read(rd, buf, seq == 1 ? 1 : 100);
+					e = lha_reader_extract(rd, oname, NULL, NULL);
+					f = fopen(oname, "rb");
+					if (f) {
+						while ((got = fread(buf, 1, sizeof buf, f)) > 0) { fcrc = ref_crc16(fcrc, buf, got); flen += got; }
+						fclose(f);
+					}
+					vf_step(vf_mix(seq * 2 + e, flen));
+					if (e && (!f || flen != rec_len || fcrc != rec_crc))
+						vf_viol("c07-extract-after-decode-good-but-mismatch", "%s: extract after %s of the same member reports success, file written has %zu bytes crc %04x, recorded %u / %04x",
+						        what, seq == 0 ? "a test" : "a partial read", flen, fcrc, rec_len, rec_crc);
+					unlink(oname);
+				}
+				lha_reader_free(rd); lha_input_stream_free(st);
+			}
+		}
 	}
 	vf_outcome(vf_mix(expected * 2 + v, crc));
 }
